@@ -132,9 +132,9 @@ def hist_case(r, spec, pool):
         else:
             b = r.choice(pool)
             k = r.random()
-            if k < 0.08 and len(b) > 0:
+            if k < 0.2 and len(b) > 0:
                 b = b[:r.randrange(len(b))]
-            elif k < 0.12:
+            elif k < 0.24:
                 b = b + bytes([r.randrange(256)])
             ops.append("HDec %s" % L.nbytes(b))
 
@@ -161,6 +161,12 @@ def hist_case(r, spec, pool):
                 break
             outs.append("HODec %s %s" % (d[len("(Seen "):-1], f[len("(Seen "):-1]))
             if x is not None:
+                # the instance after the raising decode (which attributes were already assigned)
+                try:
+                    outs.append("HOAfter %s" % L.obj_term(o))
+                except Exception as ex:  # noqa: BLE001
+                    outs.append("HOUnexpected %s" % L.what("after a raising decode: %s: %s" % (type(ex).__name__, ex)))
+                    bad = True
                 break
     t = "(%s, %s, %s)" % (term, lst(ops), lst(outs))
     desc = {"class": name, "spec": repr(spec[1:])[:2000], "ops": [x[:200] for x in ops], "outs": [x[:300] for x in outs],
